@@ -467,7 +467,7 @@ BLOCKS = {
               ['4.0.0', 'v4.0.0.1', 'v4.0.1', '10.0.0'], 'all'),
     },
 }
-RANDOM_GROUPS = {'quick': 30000, 'thorough': 400000}
+RANDOM_GROUPS = {'quick': 20000, 'thorough': 400000}
 RANDOM_ORDERS = {'quick': 2, 'thorough': 3}
 CHUNK = {'A': 1024, 'B': 512, 'C': 4, 'R': 500}
 
